@@ -264,7 +264,7 @@ int xmp_smix_load_sample(xmp_context opaque, int num, const char *path)
 		goto err2;
 	}
 	bits = hio_read16l(h);
-	if (bits == 0) {
+	if (bits < 8) {		/* len = 8 * size / bits must not exceed size */
 		retval = -XMP_ERROR_FORMAT;
 		goto err2;
 	}
@@ -274,7 +274,7 @@ int xmp_smix_load_sample(xmp_context opaque, int num, const char *path)
 		goto err2;
 	}
 	size = hio_read32l(h);
-	if (size == 0) {
+	if (size <= 0 || size > INT_MAX / 8) {	/* size + 8 and 8 * size below */
 		retval = -XMP_ERROR_FORMAT;
 		goto err2;
 	}
